@@ -138,6 +138,51 @@ def run(ck):
             expect /= F(root(k)[0]) ** int(v)
         oracle(x == expect and type(x) in (F, int), "compound-ratio", f"compound conversion {x} != product of factor powers {expect}", {"a": str(da), "b": str(db)})
         ck.count("compound")
+        # siblings on the SAME registry: the same pair with one unit's exponent changed (-1 <-> -2, 1 <-> 2, sign flip)
+        # in source and target alike — a factor cached under a colliding or too-coarse key shows here
+        k0 = rng.choice(sorted(da))
+        alt0 = None
+        for kb in db:
+            if kb in dims and k0 in dims and dims[kb] == dims[k0]:
+                alt0 = kb
+        if alt0 is not None and da[k0] == db.get(alt0):
+            for e2 in ({-1: -2, -2: -1, 1: 2, 2: 1}.get(int(da[k0]), -int(da[k0])), int(da[k0]) + 1):
+                if e2 == 0:
+                    continue
+                da2, db2 = dict(da), dict(db)
+                da2[k0], db2[alt0] = F(e2), F(e2)
+                x2 = ureg.convert(F(1), regk.mkuc(ureg, da2), regk.mkuc(ureg, db2))
+                exp2 = F(1)
+                for k, v in da2.items():
+                    exp2 *= F(root(k)[0]) ** int(v)
+                for k, v in db2.items():
+                    exp2 /= F(root(k)[0]) ** int(v)
+                oracle(x2 == exp2, "compound-sibling", f"after converting {da}->{db}, the sibling conversion {da2}->{db2} returned {x2}, expected {exp2}",
+                       {"first": [str(da), str(db)], "then": [str(da2), str(db2)]})
+                ck.case(key=("sibling", str(sorted(da2.items())), str(sorted(db2.items()))))
+
+    # ---- containers that spell one unit several times (symbol, alias, plural): exponents must add up
+    byname = {}
+    for s_ in sp:
+        byname.setdefault(ureg._units[s_].name, []).append(s_)
+    multi = [n for n in rational if len(byname.get(n, [])) >= 2]
+    for _ in range(2000 if thorough else 400):
+        n = rng.choice(multi)
+        s1, s2 = rng.sample(byname[n], 2)
+        e1, e2 = rng.choice([1, 2, -1]), rng.choice([1, 2, 3])
+        if e1 + e2 == 0:
+            continue
+        raw = ureg.UnitsContainer({s1: e1, s2: e2})
+        tgt = ureg.UnitsContainer({rng.choice(classes[dims[n]]): e1 + e2})
+        try:
+            x = ureg.convert(F(1), raw, tgt)
+        except Exception as e:
+            x = type(e).__name__
+        tn = list(tgt.keys())[0]
+        expect = (F(root(n)[0]) / F(root(tn)[0])) ** (e1 + e2)
+        oracle(x == expect, "multi-spelling", f"container {dict(raw)} -> {dict(tgt)} gave {x}, expected {expect}", {"src": dict(raw), "dst": dict(tgt)})
+        add(regk.case_factor(ureg, {s1: F(e1), s2: F(e2)}, {tn: F(e1 + e2)}), {"factor": [s1, s2, tn]}, ("multi", s1, s2, tn, e1, e2))
+        ck.count("multi-spelling")
 
     # ---- Decimal and float registries against the exact ratio
     ud, uf = regk.registry(Decimal), regk.registry(float)
